@@ -622,6 +622,28 @@ def plan_C12(ctx):
                      extra=dict(probes=sp)), "scalar reset histories")
     flp = [B("INVITE sip:a SIP/2.0\r\n"), B("SIP/2.0 200 OK\r\n"), B("SIP/2.0 404 \n"), B("X y z\r"), B("SIP/2.0 20")]
     ctx.explore(dict(mode="reset", cfgs=[mk("fline")], atoms=ATOMS["fline_long"], maxlen=3 if ctx.quick else 4, extra=dict(probes=flp)), "first line reset histories")
+    # "parsed URI": ParseURI is one-shot, the history is Use(A) . Reset . Use(B) with A a URI that fills every component (accepted, or
+    # rejected late) and B every URI text TLC enumerates for MC_URI_schemes (hash sample in the quick tier); real against real
+    r = vlib.run_tlc("MC_URI", "MC_URI_schemes.cfg", workers=8, timeout=1500)
+    if not r["ok"]: raise Machinery("TLC failed on MC_URI_schemes:\n%s" % r["tail"])
+    ctx.states += r["distinct"]; ctx.transitions += r["generated"]
+    d = vlib.scratch("c12uri"); inp = os.path.join(d, "recs.out"); n = 0
+    prev = [B(t) for t in ("sip:u:p@h:5071;a=1?h=v", "sip:h:5071;a=1@b@c", "sips:[::1]:65535;lr", "tel:+1:2@h;x?y")]
+    with open(inp, "w") as f:
+        for line in open(r["out"], errors="replace"):
+            if not line.startswith('"{'): continue
+            if ctx.quick and zlib.crc32(line.encode()) % 4: continue
+            rec = json.loads(json.loads(line))
+            if rec.get("fn") != "ParseURI": continue
+            for a_ in prev:
+                f.write(json.dumps(json.dumps(dict(fn="ParseURIReset", args=dict(s=rec["args"]["s"], s2=a_), res=dict(same=True), src="decl", prop="C12"))) + "\n"); n += 1
+    rp = vlib.run_job(dict(mode="replay", inputs_file=inp, max_viol=200, extra=dict(drift_out="")), "c12uri")
+    ctx.records += rp["extra"]["records"]; ctx.impl_traces += rp["extra"]["records"]
+    ctx.tlc_runs.append(dict(module="MC_URI", cfg="MC_URI_schemes.cfg x 4 previous uses: parse, Reset, parse vs new object", states=r["distinct"], records=rp["extra"]["records"]))
+    for v in rp.get("violations") or []:
+        if v.get("property") == "C12": ctx.violation(v)
+    shutil.rmtree(d, ignore_errors=True); shutil.rmtree(r["dir"], ignore_errors=True)
+    if n < 1000: raise Machinery("vacuous: %d URI reset histories" % n)
     cleanup(ctx)
     ctx.nontrivial = sum(e["stats"].get("Suspensions", 0) for e in ctx.extra.get("explorations", []))
     ctx.need("histories abandoned while suspended", ctx.nontrivial, 1000)
@@ -997,7 +1019,7 @@ def plan_C15(ctx):
         "flags is executed on the real functions: demanded answers (decl), drift, and on the REAL results: entry points agree incl. the URIs "
         "handed back, symmetry, flag monotonicity.")
     # (slices drift_dups / drift_badlist are outside the property's domain -- duplicate names, ill-formed lists -- and not run)
-    slices = ["refl", "recase", "usercase", "presence", "flags64v", "probe_emptyval", "probe_extra"] + ([] if ctx.quick else
+    slices = ["refl", "recase", "usercase", "presence", "flags64v", "probe_emptyval", "probe_extra", "allpairs_small"] + ([] if ctx.quick else
              ["permute", "allpairs_core", "allpairs_lists", "flags64", "probe_hdrextra", "probe_hvalcase"])
     for sl in slices:
         ctx.tlc("MC_URICmp", "MC_URICmp_%s.cfg" % sl, workers=8, min_records=1000, timeout=3000)
